@@ -10,7 +10,9 @@
      apply_transformers Transformer.apply_transformers (linearize, drop an idempotent pass equal to its
                         predecessor, fold)  ;  transform t c = apply_transformers c [t]  ;  pipe a b = a | b *)
 Require Import Cirbo.Model.Base Cirbo.Model.Gate Cirbo.Model.Circuit Cirbo.Model.Passes Cirbo.Model.WF.
-Require Import Cirbo.Proofs.RebuildFacts Cirbo.Proofs.EffectRR Cirbo.Proofs.Pipeline Cirbo.Proofs.C18Examples.
+Require Import Cirbo.Generated.GateTypes.
+Require Import Cirbo.Proofs.RebuildFacts Cirbo.Proofs.EffectRR Cirbo.Proofs.Pipeline Cirbo.Proofs.EffectMD
+               Cirbo.Proofs.EffectMU Cirbo.Proofs.C18Examples.
 
 (* ================= A. pipeline algebra ================= *)
 (* dropping an idempotent pass that equals its predecessor never changes the result: applying a list
@@ -114,3 +116,69 @@ Example C18_example_rr :
   option_map (fun c => dkeys (gates c)) (res_to_option (remove_redundant_gates true c18_ex))
     = Some ["a"; "b"; "g2"; "g"; "n1"; "n2"; "h"].
 Proof. exact c18_ex_rr. Qed.
+
+(* ================= C. MergeDuplicateGates (with its implied RemoveRedundantGates) ================= *)
+(* no two distinct non-INPUT gates have the same type and the same operands (up to permutation of the
+   operands for symmetric types); no hypothesis on c *)
+Theorem C18_md_effect : forall c c', transform TMD c = Ok c' ->
+  forall l1 l2 g1 g2, dget (gates c') l1 = Some g1 -> dget (gates c') l2 = Some g2 ->
+    gtyp g1 <> INPUT -> gtyp g2 <> INPUT ->
+    sig_eqb (gtyp g1) (gops g1) (gtyp g2) (gops g2) = true -> l1 = l2.
+Proof. exact md_effect. Qed.
+
+(* reading of sig_eqb *)
+Theorem C18_sig_eqb_spec : forall t1 o1 t2 o2, sig_eqb t1 o1 t2 o2 = true <->
+  t1 = t2 /\ if is_symmetric t1 then Permutation.Permutation o1 o2 else o1 = o2.
+Proof. exact sig_eqb_equiv. Qed.
+
+(* the same already holds for the output of the pass itself on the gates reachable from its outputs *)
+Theorem C18_md_effect_before_rr : forall c m, merge_duplicate_gates c = Ok m ->
+  forall l1 l2 g1 g2, reachable m l1 -> reachable m l2 ->
+    dget (gates m) l1 = Some g1 -> dget (gates m) l2 = Some g2 ->
+    gtyp g1 <> INPUT -> gtyp g2 <> INPUT ->
+    sig_eqb (gtyp g1) (gops g1) (gtyp g2) (gops g2) = true -> l1 = l2.
+Proof. intros c m H. exact (proj2 (md_effect_reachable c m H)). Qed.
+
+Example C18_example_md :
+  option_map (fun c => gates c) (res_to_option (transform TMD c18_ex)) =
+  Some [("a", mkGate INPUT []); ("b", mkGate INPUT []); ("g2", mkGate AND ["b"; "a"]);
+        ("n1", mkGate NOT ["g2"]); ("n2", mkGate NOT ["n1"]); ("h", mkGate OR ["n2"; "g2"]);
+        ("d", mkGate INPUT [])].
+Proof. exact c18_ex_md. Qed.
+
+(* ================= E. MergeUnaryOperators (with its implied RemoveRedundantGates) ================= *)
+(* on a circuit whose unary gates are all NOT: no NOT gate has a NOT gate as operand *)
+Theorem C18_mu_no_double_negation : forall c c', WF c -> arity_ok c -> unary_all_not c ->
+  transform TMU c = Ok c' ->
+  forall l g o go, dget (gates c') l = Some g -> gtyp g = NOT -> In o (gops g) ->
+                   dget (gates c') o = Some go -> gtyp go <> NOT.
+Proof. exact mu_effect_not. Qed.
+
+(* on a circuit without NOT / LNOT / RNOT gates (in particular: one whose unary gates are all IFF):
+   no IFF / LIFF / RIFF gate is an operand or an output *)
+Theorem C18_mu_no_buffer_reference : forall c c', WF c -> no_not_like c ->
+  transform TMU c = Ok c' ->
+  forall o go, (In o (outputs c') \/ exists l g, dget (gates c') l = Some g /\ In o (gops g)) ->
+               dget (gates c') o = Some go -> is_iff_like (gtyp go) = false.
+Proof. exact mu_effect_iff. Qed.
+
+(* the arity hypothesis of the first statement cannot be dropped: n = NOT(a, k) with two operands and
+   k = NOT(b) keeps k as an operand of the NOT gate n *)
+Example C18_mu_needs_arity :
+  WF c18_not2 /\ unary_all_not c18_not2 /\
+  option_map (fun c => gates c) (res_to_option (transform TMU c18_not2)) =
+  Some [("b", mkGate INPUT []); ("k", mkGate NOT ["b"]); ("a", mkGate INPUT []); ("n", mkGate NOT ["a"; "k"])].
+Proof. exact c18_not2_facts. Qed.
+
+Example C18_example_mu :
+  WF c18_ex /\ arity_ok c18_ex /\ unary_all_not c18_ex /\
+  option_map (fun c => gates c) (res_to_option (transform TMU c18_ex)) =
+  Some [("a", mkGate INPUT []); ("b", mkGate INPUT []); ("g2", mkGate AND ["b"; "a"]);
+        ("g", mkGate AND ["a"; "b"]); ("h", mkGate OR ["g"; "g2"]); ("d", mkGate INPUT [])].
+Proof. exact c18_ex_mu. Qed.
+
+Example C18_example_mu_iff :
+  WF c18_iff /\ no_not_like c18_iff /\
+  option_map (fun c => (outputs c, gates c)) (res_to_option (transform TMU c18_iff)) =
+  Some (["a"; "g"], [("b", mkGate INPUT []); ("a", mkGate INPUT []); ("g", mkGate AND ["a"; "b"])]).
+Proof. exact c18_iff_facts. Qed.
